@@ -185,6 +185,9 @@ def e2e_part(name, profiles, pairs, tags, nontrivial, n_quick=120, n_thorough=12
                         bad += [("C01", m) for m in ur.ir_problems]
                         if imp in ("missing-injector", "no-output"):
                             bad.append(("C01", "no generated implementation for injector %s (%s)" % (ur.u.inj["name"], imp)))
+                    if tags and "C01" not in tags and ur.build_errors and not getattr(ur.u, "planted", None):
+                        # the property speaks about the behaviour of the generated injector: one that does not compile has none
+                        bad += [(sorted(tags)[0], "wire gen succeeded but the generated injector does not compile: " + m) for m in ur.build_errors[:2]]
                     if "C12" in tags and "C02" not in tags:
                         bad += [("C12", m) for m in ur.ir_problems if "struct" in m or "field" in m or "selection" in m]
                         if any(it["kind"] in ("struct", "field") for it in ur.u.items):
@@ -278,7 +281,7 @@ register("C02",
                                                 "p_iface_arg": 0.4, "p_conc_arg": 0.8, "p_twin": 0.0}),
                                          # bindings to struct providers (which offer S and *S), marker functions dot-imported / renamed:
                                          # the interface must be fed by exactly the form the binding names
-                                         ("w", {"p_func": 0.15, "p_struct": 0.6, "p_extra_fields": 0.0, "units": [1, 2], "p_wire_import_forms": 1.0, "min_structs": 4, "max_structs": 7}),
+                                         ("w", {"p_func": 0.15, "p_struct": 0.6, "p_extra_fields": 0.9, "units": [1, 2], "p_wire_import_forms": 1.0, "min_structs": 4, "max_structs": 7}),
                                          # adversarial names: a parameter called like the package of its own type, whose type has
                                          # methods looking exactly like that package's provider functions (capture = wrong source)
                                          ("q", {"adversarial": True, "p_extra_params": 0.95, "p_conc_arg": 0.9, "units": [1, 2],
@@ -761,7 +764,8 @@ register("C10",
           e2e_part("C10", [("n", {"adversarial": True, "units": [2, 3]}), ("d", {"units": [2, 3]})], _pairs_c02, set(),
                    lambda ur: (ur.impl or "").startswith("ok"), n_quick=100, n_thorough=1000, extra=_wellformed_extra),
           # the same set reached directly, through re-exporting packages that do not import wire, and nested in a facade's set
-          lambda rep, tier: __import__("vlib.c10tier", fromlist=["x"]).run_facade(rep, tier)])
+          lambda rep, tier: __import__("vlib.c10tier", fromlist=["x"]).run_facade(rep, tier),
+          lambda rep, tier: __import__("vlib.c10tier", fromlist=["x"]).run_permuted(rep, tier)])
 
 
 def _c11_matrix(rep, tier):
